@@ -258,3 +258,130 @@ func TestVerifReplayUpdateRewritesId(t *testing.T) {
 		t.Fatal("an update stored a document under a key different from its _id")
 	}
 }
+
+// Index transparency scenarios (C02, C20): the same criteria over the same documents select the same
+// documents with and without an index on the filtered field, and never panic.
+func verifReplayPlanner(t *testing.T, what string, mk func(coll string) *query.Query, indexed ...string) bool {
+	db, err := Open(t.TempDir())
+	if err != nil {
+		t.Fatal(err)
+	}
+	defer db.Close()
+	for _, coll := range []string{"plain", "indexed"} {
+		db.CreateCollection(coll)
+		for i := 0; i < 10; i++ {
+			doc := d.NewDocument()
+			doc.Set("n", i)
+			if i%4 != 3 {
+				doc.Set("x", i)
+			}
+			doc.Set("y", 9-i)
+			if _, err := db.InsertOne(coll, doc); err != nil {
+				t.Fatal(err)
+			}
+		}
+	}
+	for _, f := range indexed {
+		if err := db.CreateIndex("indexed", f); err != nil {
+			t.Fatal(err)
+		}
+	}
+	run := func(coll string) (res string, failed bool) {
+		defer func() {
+			if e := recover(); e != nil {
+				res, failed = fmt.Sprintf("panic: %v", e), true
+			}
+		}()
+		docs, err := db.FindAll(mk(coll).Sort(query.SortOption{Field: "n"}))
+		if err != nil {
+			return "error: " + err.Error(), false
+		}
+		s := ""
+		for _, doc := range docs {
+			s += fmt.Sprintf("%v ", doc.Get("n"))
+		}
+		return "n = " + s, false
+	}
+	plain, _ := run("plain")
+	idx, panicked := run("indexed")
+	if panicked || plain != idx {
+		fmt.Printf("REPLAY FAIL scenario: %s: without an index %s; with an index on %v %s\n", what, plain, indexed, idx)
+		return false
+	}
+	fmt.Printf("REPLAY PASS scenario: %s: %s with and without an index on %v\n", what, plain, indexed)
+	return true
+}
+
+func TestVerifReplayPlannerNot(t *testing.T) {
+	ok := verifReplayPlanner(t, "NotExists(x)", func(c string) *query.Query { return query.NewQuery(c).Where(query.Field("x").NotExists()) }, "x")
+	ok = verifReplayPlanner(t, "Not(x In [1 2]) And n >= 0", func(c string) *query.Query {
+		return query.NewQuery(c).Where(query.Field("x").In(1, 2).Not().And(query.Field("n").GtEq(0)))
+	}, "x") && ok
+	if !ok {
+		t.Fatal("a negated criteria is mishandled by the index planner")
+	}
+}
+
+func TestVerifReplayPlannerOr(t *testing.T) {
+	ok := verifReplayPlanner(t, "x < 3 Or x > 6", func(c string) *query.Query { return query.NewQuery(c).Where(query.Field("x").Lt(3).Or(query.Field("x").Gt(6))) }, "x")
+	ok = verifReplayPlanner(t, "x < 3 Or y < 3", func(c string) *query.Query { return query.NewQuery(c).Where(query.Field("x").Lt(3).Or(query.Field("y").Lt(3))) }, "x", "y") && ok
+	ok = verifReplayPlanner(t, "x != 4", func(c string) *query.Query { return query.NewQuery(c).Where(query.Field("x").Neq(4)) }, "x") && ok
+	if !ok {
+		t.Fatal("a disjunction is planned as if it were a conjunction")
+	}
+}
+
+func TestVerifReplayPlannerDoubleNot(t *testing.T) {
+	ok := verifReplayPlanner(t, "Not(Not(Not(x = 5))) And x > 1", func(c string) *query.Query {
+		return query.NewQuery(c).Where(query.Field("x").Eq(5).Not().Not().Not().And(query.Field("x").Gt(1)))
+	}, "x")
+	ok = verifReplayPlanner(t, "Not(Not(Not(x < 5)))", func(c string) *query.Query {
+		return query.NewQuery(c).Where(query.Field("x").Lt(5).Not().Not().Not())
+	}, "x") && ok
+	if !ok {
+		t.Fatal("a negation that survives flattening is planned with the range of the negated criteria")
+	}
+}
+
+func TestVerifReplayPlannerFieldOperand(t *testing.T) {
+	ok := verifReplayPlanner(t, "x > Field(y)", func(c string) *query.Query { return query.NewQuery(c).Where(query.Field("x").Gt(query.Field("y"))) }, "x")
+	ok = verifReplayPlanner(t, "x = $y", func(c string) *query.Query { return query.NewQuery(c).Where(query.Field("x").Eq("$n")) }, "x") && ok
+	if !ok {
+		t.Fatal("a field operand is used as a literal range bound")
+	}
+}
+
+// IterateDocs is exported: criteria built with plain Go values (not yet normalised) must work there as they
+// do through FindAll (C20, C02).
+func TestVerifReplayIterateDocsRaw(t *testing.T) {
+	db, err := Open(t.TempDir())
+	if err != nil {
+		t.Fatal(err)
+	}
+	defer db.Close()
+	db.CreateCollection("c")
+	for i := 0; i < 10; i++ {
+		doc := d.NewDocument()
+		doc.Set("x", i)
+		db.InsertOne("c", doc)
+	}
+	db.CreateIndex("c", "x")
+	q := query.NewQuery("c").Where(query.Field("x").Gt(5))
+	all, _ := db.FindAll(q)
+	n := 0
+	res := ""
+	func() {
+		defer func() {
+			if e := recover(); e != nil {
+				res = fmt.Sprintf("panics: %v", e)
+			}
+		}()
+		err := db.IterateDocs(q, func(doc *d.Document) error { n++; return nil })
+		res = fmt.Sprintf("visits %d documents (result %v)", n, err)
+	}()
+	if n != len(all) {
+		fmt.Printf("REPLAY FAIL scenario: x > 5 (Go int literal) with an index on x: FindAll returns %d documents, IterateDocs %s\n", len(all), res)
+		t.Fatal("IterateDocs with criteria that were not normalised")
+	}
+	fmt.Printf("REPLAY PASS scenario: x > 5 (Go int literal) with an index on x: FindAll returns %d documents, IterateDocs %s\n", len(all), res)
+}
